@@ -3,6 +3,7 @@ Handlers for the divergences (C06): the generic definitions of Core/Diverge eval
 `Float`, the companion matrix / characteristic polynomial of maximum correlation in `Rat`.
 -/
 import DitModel.Core.Diverge
+import DitModel.Core.Diverge2
 import DitModel.Drv.Info
 namespace Dit.Drv
 open Dit
@@ -61,7 +62,26 @@ def hMaxcorr : J → Option J
       pure (.arr [listJ (listJ ratJ) A, listJ ratJ (charPoly (fun n => (n : Rat)) A)])
   | _ => none
 
+/-- `chernf [pairs, alphas]`: the Chernoff objective `log2 Σ p^α q^(1−α)` at each α. -/
+def hChernF : J → Option J
+  | .arr [pq, alphas] => do
+      let pq ← J.toFPairs? pq
+      let alphas ← J.toList? J.toFloat? alphas
+      pure (listJ floatJ (alphas.map (fun a => chernoffObj floatR Float.log2 a pq)))
+  | _ => none
+
+/-- `lautumf [table, X, Y]` with float values: lautum information of two groups (`"inf"` when infinite). -/
+def hLautumF : J → Option J
+  | .arr [t, X, Y] => do
+      let rows ← J.toList? (fun r => match r with
+        | .arr [o, v] => do pure (← J.toList? decNat o, ← v.toFloat?)
+        | _ => none) t
+      let X ← J.toList? decNat X
+      let Y ← J.toList? decNat Y
+      pure (optFloatJ (lautumVals Float.log2 rows X Y))
+  | _ => none
+
 def divergeHandlers : List (String × (J → Option J)) :=
-  [("divf", hDivF), ("jsdf", hJsdF), ("align", hAlign), ("maxcorr", hMaxcorr)]
+  [("divf", hDivF), ("jsdf", hJsdF), ("align", hAlign), ("maxcorr", hMaxcorr), ("chernf", hChernF), ("lautumf", hLautumF)]
 
 end Dit.Drv
